@@ -713,6 +713,8 @@ def np_array(x, dtype=None, copy=True):
         return x.copy() if copy else x
     if isinstance(x, Arr2):
         return x.copy() if copy else x
+    if isinstance(x, ConcArr):
+        return ConcArr(_deep(x.data)) if copy else x
     if isinstance(x, GenList):
         return x.lane.copy()
     if isinstance(x, GenRows):
@@ -1349,6 +1351,22 @@ class RandomStateObj(object):
                     raise Unsupported('RandomState.set_state(%r)' % (s,))
                 self.state = s.t
             return set_state
+        draws = {'uniform': np_random_uniform, 'randint': np_random_randint, 'normal': np_random_normal,
+                 'random': np_random_random, 'random_sample': np_random_random, 'exponential': np_random_exponential,
+                 'choice': np_random_choice, 'rand': lambda *sh: np_random_uniform(0.0, 1.0, sh[0] if sh else None)}
+        if name in draws:
+            # a draw from THIS generator object: the same laws as the module-level functions, driven by (and advancing) the
+            # object's own state; the global state is not touched
+            def draw(*a, **k):
+                saved = State.rng
+                State.rng = self.state
+                try:
+                    State.ctx.event('rng_object', (name, self.state), State.where)
+                    return draws[name](*a, **k)
+                finally:
+                    self.state = State.rng
+                    State.rng = saved
+            return draw
         raise Unsupported('RandomState.' + name)
 
     def __repr__(self):
